@@ -915,8 +915,62 @@ fn rule_objects(rep: &mut Report) {
     rep.streams.push(sr);
 }
 
+/// "the expression that the text without its `@key: value;` prefix parses to": for every text of the expression
+/// streams, `Rule::parse` of the text under a name comment (with and without metadata in front) must hold exactly the
+/// tree `Expr::parse` returns for the text alone, and must reject exactly the texts it rejects
+fn rule_vs_expr(rep: &mut Report, workers: usize, thorough: bool, seed: u64) {
+    let mut rng = Rng::new(seed ^ 0x14);
+    let mut texts = prec_stream();
+    texts.extend(toks_stream(false));
+    texts.extend(strlit_stream(&mut rng, false));
+    texts.extend(literal_stream(&mut rng, thorough));
+    for t in ["x * i1", "i1 * x", "x + i0", "x - i0", "x / i1", "x == none", "f(x) != none", "none == x", "if c then true else false", "--x", "!!x", "\"a\rb\"", "\"a\r\nb\"", "a and true", "false or a", "[x * i1, {k: x + i0}]"] {
+        texts.push(TextCase { text: t.to_string(), tag: "rule-vs-expr" });
+    }
+    let n = texts.len();
+    let mut out: Vec<Option<String>> = vec![None; n];
+    let chunk = ((n + workers - 1) / workers.max(1)).max(1);
+    std::thread::scope(|sc| {
+        for (cs, os) in texts.chunks(chunk).zip(out.chunks_mut(chunk)) {
+            sc.spawn(move || {
+                for (c, o) in cs.iter().zip(os.iter_mut()) {
+                    let r = catch_unwind(AssertUnwindSafe(|| {
+                        let alone = Expr::parse(&c.text).map(|e| enc_expr(&e)).map_err(|_| ());
+                        let mut diffs = vec![];
+                        for (label, prefix) in [("comment", "// n\n".to_string()), ("meta", "@name: \"n\";\n@k: [i1, {a: \"s\"}];\n".to_string())] {
+                            let inrule = Rule::parse(&format!("{}{}", prefix, c.text)).map(|r| enc_expr(r.expr())).map_err(|_| ());
+                            if inrule != alone {
+                                diffs.push(format!("{}: rule {:?} alone {:?}", label, inrule, alone));
+                            }
+                        }
+                        diffs
+                    }));
+                    *o = match r {
+                        Ok(d) if d.is_empty() => None,
+                        Ok(d) => Some(d.join(" | ")),
+                        Err(_) => Some("PANIC".into()),
+                    };
+                }
+            });
+        }
+    });
+    let mut sr = StreamReport::new("rule-vs-expr", "every text of the precedence / token-sequence / string-literal / literal streams plus expressions a simplifier would rewrite (x * i1, x + i0, x == none, --x, if c then true else false, raw CR in strings): the tree inside Rule::parse(name comment or metadata + text) equals the tree of Expr::parse(text), and both reject the same texts — predicate on the real code alone", true);
+    for (t, o) in texts.iter().zip(out.iter()) {
+        // a text that itself contains a comment line or an `@` would change the rule's name / metadata: skip those
+        if t.text.contains("//") || t.text.contains('@') {
+            continue;
+        }
+        sr.count(&t.text, true);
+        if let Some(d) = o {
+            rep.add_finding(Finding { kind: "impl-violates-property".into(), stream: "rule-vs-expr".into(), case: format!("rule-vs-expr\t{}", hex(&t.text)), human: format!("{:?}", t.text).chars().take(160).collect(), impl_out: d.chars().take(600).collect(), model_out: "same tree / same rejection".into(), predicate: "parsing rule text yields the expression that the text without its prefix parses to".into(), signature: format!("C14 rule-vs-expr {}", t.tag) });
+        }
+    }
+    rep.streams.push(sr);
+}
+
 pub fn run_c14(rep: &mut Report, driver: &str, workers: usize, thorough: bool, seed: u64) {
     rule_objects(rep);
+    rule_vs_expr(rep, workers, thorough, seed);
     let mut rng = Rng::new(seed);
     let run = run_texts(rule_stream(&mut rng, thorough), true, driver, workers);
     judge_texts("C14", "rule-texts", "rule texts of 10 / 33 / 40 / 100 / 300 metadata items with repeated keys, scattered keys, long comment blocks, long names and large constants; rule texts assembled from 0..6 lines: 11 comment-line shapes (indented, empty, NBSP-padded, triple slash, containing `@name`), 26 metadata items (name / description overrides of string and non-string type, duplicates, non-constant values, malformed items) plus every constant shape of depth <= 3 over {literal, list, map} (systematically, incl. duplicate map keys), 14 expressions (multi-line string containing `//`, trailing comment, `/` and comments), placed before / between / after each other with \\n, \\r\\n or \\r endings; compared: name, description, the full metadata list, the expression tree, and which of MissingRuleName / RuleParseError is reported", false, &run, "full", rep);
